@@ -370,6 +370,19 @@ impl Request {
                     });
                 },
                 ParseStatusInternal::Incomplete => {
+                    // Whatever was presented but not consumed still belongs
+                    // to this message, so it counts against the limit now
+                    // rather than after the caller has buffered even more.
+                    let pending = raw_message.len() - total_consumed;
+                    match self.max_message_size {
+                        Some(max_message_size)
+                            if self.total_bytes.saturating_add(pending)
+                                > max_message_size =>
+                        {
+                            return Err(Error::MessageTooLong);
+                        },
+                        _ => (),
+                    }
                     return Ok(ParseResults {
                         status: ParseStatus::Incomplete,
                         consumed: total_consumed,
